@@ -303,7 +303,20 @@ func run(c *fw.Ctx, idx int) {
 			c.Violation("C16/pin/error-on-healthy-daemon", "the daemon behaved and Pin failed: "+err.Error(), detail)
 		}
 		if fault == "slow-progress" && didFire && err != nil && !(prior == "recursive" && modeWant == "direct") {
-			c.Violation("C16/pin/steady-progress-aborted", "a pin that kept making progress was aborted: "+err.Error(), detail)
+			// the cadence as the daemon itself measured it: on a machine too busy to write a
+			// progress line every pin_timeout/10, the connector's view "no progress for
+			// pin_timeout" may be right - no verdict then
+			var maxGap time.Duration
+			for _, rq := range reqs {
+				if rq.MaxGap > maxGap {
+					maxGap = rq.MaxGap
+				}
+			}
+			if maxGap > pinTimeout/2 {
+				c.Inconclusive(fmt.Sprintf("the fake daemon could not keep its cadence (longest gap between progress lines %s, pin_timeout %s)", maxGap, pinTimeout))
+			} else {
+				c.Violation("C16/pin/steady-progress-aborted", fmt.Sprintf("a pin that kept making progress (longest gap between two progress lines %s, pin_timeout %s) was aborted: %v", maxGap, pinTimeout, err), detail)
+			}
 		}
 		// a transport-level failure of the preliminary pin/ls is a failure, not "not pinned"
 		lsTransport := didFire && faultStep == "pin/ls" && (fault == "non-json" || fault == "reset" || fault == "reset-mid-body" || strings.Contains(fault, "stall"))
